@@ -329,6 +329,14 @@ def popRangeCalls : Nat → List HRange → List (List HRange × Buf)
       let tmp := (grp.foldl pushRange HL.new).ranges.toList
       (tmp, (popRangeBuf tmp).1) :: popRangeCalls f (before.dropWhile (withinRange t)).reverse
 
+/-- `hostlist_next_range` on a fresh iterator until NULL: `_iterator_advance_range` skips the records
+    that are `hostrange_within_range` of the group's first record, `_get_bracketed_list` prints the
+    group that starts at the iterator's position (it sees ALL records that follow).  One buffer per call. -/
+def nextRangeCalls : Nat → List HRange → List Buf
+  | 0, _ => []
+  | _ + 1, [] => []
+  | f + 1, r0 :: rest => (nextRangeBuf r0 rest).1 :: nextRangeCalls f (rest.dropWhile (withinRange r0))
+
 /-! ### one host name into a heap block: `hostlist_next`, `_hostrange_string` (`hostlist_nth`),
     `hostrange_shift`, `hostrange_pop` -/
 /-- `snprintf(buf, size, "%s%0*lu", prefix, width, k)` into a block of `size` bytes -/
